@@ -605,3 +605,128 @@ Section Crossings.
     destruct (1 <? lenZ visited); [rewrite unique_ints_In|]; exact H.
   Qed.
 End Crossings.
+
+(** * LocateCellID: the documented Indexed / Subdivided / Disjoint relation *)
+
+(** cell ranges are laminar: equal, disjoint, or one lies in the lower or upper half of the other *)
+Definition in_half (a b : Z) : Prop :=   (* range a is inside one half of range b, away from b *)
+  (range_min b <= range_min a /\ range_max a < b) \/ (b < range_min a /\ range_max a <= range_max b).
+
+Lemma laminar_le a b : 0 < a -> 0 < b -> lsbZ a <= lsbZ b ->
+  a = b \/ range_max a < range_min b \/ range_max b < range_min a \/ in_half a b.
+Proof.
+  intros Ha Hb Hl. destruct a as [|pa|pa]; try lia. destruct b as [|pb|pb]; try lia.
+  unfold in_half, range_min, range_max. cbn [lsbZ] in *.
+  destruct (lsb_pos_spec pa) as (m & x & Ea & Ela & Hx & Hm).
+  destruct (lsb_pos_spec pb) as (k & y & Eb & Elb & Hy & Hk).
+  rewrite Ela, Elb in *. rewrite Ea, Eb.
+  assert (x <= y) as Hxy.
+  { destruct (Z_le_gt_dec x y); [assumption|exfalso].
+    assert (2 ^ y < 2 ^ x) by (apply Z.pow_lt_mono_r; lia). lia. }
+  assert (0 < 2 ^ x) as HM by (apply Z.pow_pos_nonneg; lia).
+  set (M := 2 ^ x) in *.
+  destruct (Z.eq_dec x y) as [<-|Hne].
+  - (* same level *)
+    fold M. destruct (Z.lt_trichotomy m k) as [Hlt|[->|Hgt]]; [right; left; nia|left; reflexivity|right; right; left; nia].
+  - (* a is deeper: L = 2M * q *)
+    assert (2 ^ y = M * (2 * 2 ^ (y - x - 1))) as EL.
+    { unfold M. replace y with (x + (1 + (y - x - 1))) at 1 by lia.
+      rewrite Z.pow_add_r by lia. rewrite Z.pow_add_r by lia. reflexivity. }
+    assert (0 < 2 ^ (y - x - 1)) as Hq by (apply Z.pow_pos_nonneg; lia).
+    set (q := 2 ^ (y - x - 1)) in *. rewrite EL. clear EL Ela Elb Ea Eb Hl.
+    (* thresholds in units of D = 2M *)
+    destruct (Z_lt_le_dec m (2 * k * q)) as [H1|H1].
+    + right; left. nia.
+    + destruct (Z_lt_le_dec m ((2 * k + 1) * q)) as [H2|H2].
+      * right; right; right. left. nia.
+      * destruct (Z_lt_le_dec m ((2 * k + 2) * q)) as [H3|H3].
+        -- right; right; right. right. nia.
+        -- right; right; left. nia.
+Qed.
+
+Lemma laminar a b : 0 < a -> 0 < b ->
+  (a = b /\ range_min a = range_min b /\ range_max a = range_max b) \/
+  range_max a < range_min b \/ range_max b < range_min a \/ in_half a b \/ in_half b a.
+Proof.
+  intros Ha Hb. destruct (Z_le_gt_dec (lsbZ a) (lsbZ b)) as [H|H].
+  - destruct (laminar_le a b Ha Hb H) as [->|[?|[?|?]]]; auto.
+  - destruct (laminar_le b a Hb Ha ltac:(lia)) as [->|[?|[?|?]]]; auto.
+Qed.
+
+Theorem locate_cellid_spec cells T : cells_ok cells -> 0 < T ->
+  match locate_cellid cells T with
+  | Indexed k => 0 <= k < lenZ cells /\
+      range_min (nthZ cells k 0) <= range_min T /\ range_max T <= range_max (nthZ cells k 0)
+  | Subdivided k => 0 <= k < lenZ cells /\
+      range_min T <= range_min (nthZ cells k 0) /\ range_max (nthZ cells k 0) <= range_max T /\
+      nthZ cells k 0 <> T /\
+      (forall k', 0 <= k' < k -> range_max (nthZ cells k' 0) < range_min T)
+  | Disjoint => forall k, 0 <= k < lenZ cells ->
+      range_max (nthZ cells k 0) < range_min T \/ range_max T < range_min (nthZ cells k 0)
+  end.
+Proof.
+  intros Hok HT. pose proof (seek_spec cells (range_min T) Hok) as Hs. cbv zeta in Hs.
+  destruct Hs as (Hpos & Hlow & Hhigh). pose proof Hok as (Hv & Hd).
+  pose proof (range_bounds T HT) as HrT.
+  assert (forall k, 0 <= k < lenZ cells ->
+            0 < nthZ cells k 0 /\ range_min (nthZ cells k 0) <= nthZ cells k 0 <= range_max (nthZ cells k 0)) as Hb.
+  { intros k Hk. pose proof (Hv k Hk). split; [lia|apply range_bounds; lia]. }
+  unfold locate_cellid, id_at. set (pos := seek cells (range_min T)) in *.
+  destruct (pos <? lenZ cells) eqn:E1.
+  - apply Z.ltb_lt in E1. pose proof (Hv pos ltac:(lia)) as Hvp. pose proof (Hb pos ltac:(lia)) as (HI0 & HbI).
+    pose proof (Hhigh pos ltac:(lia)) as HIge.
+    pose proof (laminar (nthZ cells pos 0) T HI0 HT) as HlamI. unfold in_half in HlamI.
+    destruct ((nthZ cells pos 0) =? sentinel) eqn:E2; [apply Z.eqb_eq in E2; lia|]. cbn [negb andb].
+    destruct ((nthZ cells pos 0) >=? T) eqn:E3; rewrite Z.geb_leb in E3;
+      [apply Z.leb_le in E3|apply Z.leb_gt in E3]; cbn [andb].
+    + destruct (range_min (nthZ cells pos 0) <=? T) eqn:E4; [apply Z.leb_le in E4|apply Z.leb_gt in E4].
+      * (* Indexed at pos *) split; [lia|]. lia.
+      * destruct ((nthZ cells pos 0) <=? range_max T) eqn:E5; [apply Z.leb_le in E5|apply Z.leb_gt in E5].
+        -- (* Subdivided *) split; [lia|]. split; [lia|]. split; [lia|]. split; [lia|].
+           intros k' Hk'. pose proof (Hlow k' ltac:(lia)) as Hk'lt. pose proof (Hb k' ltac:(lia)) as (Hk0 & Hbk).
+           pose proof (Hd k' pos ltac:(lia) ltac:(lia)) as Hdk.
+           pose proof (laminar (nthZ cells k' 0) T Hk0 HT) as Hlk. unfold in_half in Hlk. lia.
+        -- (* try the predecessor, else disjoint *)
+           destruct (0 <? pos) eqn:E6; [apply Z.ltb_lt in E6|apply Z.ltb_ge in E6]; cbn [andb].
+           ++ destruct (pos - 1 <? lenZ cells) eqn:E7; [|apply Z.ltb_ge in E7; lia].
+              pose proof (Hb (pos - 1) ltac:(lia)) as (HP0 & HbP). pose proof (Hlow (pos - 1) ltac:(lia)) as HPlt.
+              pose proof (laminar (nthZ cells (pos - 1) 0) T HP0 HT) as HlamP. unfold in_half in HlamP.
+              pose proof (Hd (pos - 1) pos ltac:(lia) ltac:(lia)) as HdP.
+              destruct (range_max (nthZ cells (pos - 1) 0) >=? T) eqn:E8; rewrite Z.geb_leb in E8;
+                [apply Z.leb_le in E8|apply Z.leb_gt in E8].
+              ** split; [lia|]. lia.
+              ** intros k Hk. pose proof (Hb k Hk) as (Hk0 & Hbk).
+                 pose proof (laminar (nthZ cells k 0) T Hk0 HT) as Hlk. unfold in_half in Hlk.
+                 destruct (Z_lt_le_dec k pos) as [Hkp|Hkp].
+                 --- pose proof (Hlow k ltac:(lia)).
+                     destruct (Z.eq_dec k (pos - 1)) as [->|Hne]; [lia|].
+                     pose proof (Hd k (pos - 1) ltac:(lia) ltac:(lia)). lia.
+                 --- pose proof (Hhigh k ltac:(lia)).
+                     destruct (Z.eq_dec k pos) as [->|Hne]; [lia|].
+                     pose proof (Hd pos k ltac:(lia) ltac:(lia)) as Hdk. lia.
+           ++ intros k Hk. pose proof (Hb k Hk) as (Hk0 & Hbk).
+              pose proof (laminar (nthZ cells k 0) T Hk0 HT) as Hlk. unfold in_half in Hlk.
+              pose proof (Hhigh k ltac:(lia)).
+              destruct (Z.eq_dec k pos) as [->|Hne]; [lia|].
+              pose proof (Hd pos k ltac:(lia) ltac:(lia)) as Hdk. lia.
+    + (* the cell at pos is below T *)
+      destruct ((nthZ cells pos 0) <=? range_max T) eqn:E5; [apply Z.leb_le in E5|apply Z.leb_gt in E5; lia].
+      (* Subdivided *) split; [lia|]. split; [lia|]. split; [lia|]. split; [lia|].
+      intros k' Hk'. pose proof (Hlow k' ltac:(lia)) as Hk'lt. pose proof (Hb k' ltac:(lia)) as (Hk0 & Hbk).
+      pose proof (Hd k' pos ltac:(lia) ltac:(lia)) as Hdk.
+      pose proof (laminar (nthZ cells k' 0) T Hk0 HT) as Hlk. unfold in_half in Hlk. lia.
+  - apply Z.ltb_ge in E1. rewrite Z.eqb_refl. cbn [negb andb].
+    destruct (0 <? pos) eqn:E6; [apply Z.ltb_lt in E6|apply Z.ltb_ge in E6]; cbn [andb].
+    + destruct (pos - 1 <? lenZ cells) eqn:E7; [|apply Z.ltb_ge in E7; lia].
+      pose proof (Hb (pos - 1) ltac:(lia)) as (HP0 & HbP). pose proof (Hlow (pos - 1) ltac:(lia)) as HPlt.
+      pose proof (laminar (nthZ cells (pos - 1) 0) T HP0 HT) as HlamP. unfold in_half in HlamP.
+      destruct (range_max (nthZ cells (pos - 1) 0) >=? T) eqn:E8; rewrite Z.geb_leb in E8;
+        [apply Z.leb_le in E8|apply Z.leb_gt in E8].
+      * split; [lia|]. lia.
+      * intros k Hk. pose proof (Hb k Hk) as (Hk0 & Hbk).
+        pose proof (laminar (nthZ cells k 0) T Hk0 HT) as Hlk. unfold in_half in Hlk.
+        pose proof (Hlow k ltac:(lia)).
+        destruct (Z.eq_dec k (pos - 1)) as [->|Hne]; [lia|].
+        pose proof (Hd k (pos - 1) ltac:(lia) ltac:(lia)). lia.
+    + intros k Hk. lia.
+Qed.
